@@ -4,6 +4,7 @@ import (
 	"encoding/json"
 	"fmt"
 	"reflect"
+	"sort"
 	"strings"
 	"time"
 
@@ -370,6 +371,62 @@ func c19Eval(c c19Case) (ok bool, sig, detail string) {
 			}
 		}
 		return true, "", ""
+	case "insert-fork":
+		locs, err := decodeAll(c.Locs)
+		if err != nil {
+			return true, "", err.Error()
+		}
+		// fork: the table returned by any insertion is a value - two different features inserted into the same
+		// table (a prefix of the sequence above, rebuilt here) give two independent results and leave it unchanged
+		multiset := func(t gts.FeatureSlice) string {
+			var ss []string
+			for _, g := range t {
+				ss = append(ss, encFeature(g))
+			}
+			sort.Strings(ss)
+			return strings.Join(ss, " ")
+		}
+		probes := []gts.Feature{
+			{Key: "exon", Loc: gts.Range(90, 95), Props: gts.Props{{"n", "last"}}},
+			{Key: "intron", Loc: gts.Range(96, 99), Props: gts.Props{{"n", "last2"}}},
+			{Key: "exon", Loc: gts.Between(0), Props: gts.Props{{"n", "first"}}},
+			{Key: "source", Loc: gts.Range(0, 99), Props: gts.Props{{"n", "src"}}},
+		}
+		var base gts.FeatureSlice
+		for k := 0; k <= len(locs); k++ {
+			if k > 0 {
+				key := "gene"
+				if k-1 < len(c.Keys) && c.Keys[k-1] != "" {
+					key = c.Keys[k-1]
+				}
+				base = base.Insert(gts.Feature{Key: key, Loc: locs[k-1], Props: gts.Props{{"n", fmt.Sprint(k - 1)}}})
+			}
+			if k < len(locs) {
+				continue // the shorter tables are the final tables of the shorter sequences, which are enumerated too
+			}
+			before := multiset(base)
+			beforeSeq := fmt.Sprint(len(base), before)
+			for i := 0; i < len(probes); i++ {
+				for j := 0; j < len(probes); j++ {
+					if !(i == 0 && j == 1 || i == 2 && j == 0 || i == 3 && j == 1 || i == 1 && j == 2) {
+						continue
+					}
+					var a, b gts.FeatureSlice
+					if p, msg := engine.Safely(func() { a = base.Insert(probes[i]); b = base.Insert(probes[j]) }); p {
+						return false, "panic", "Insert panics: " + msg
+					}
+					wa := multiset(append(append(gts.FeatureSlice{}, base...), probes[i]))
+					wb := multiset(append(append(gts.FeatureSlice{}, base...), probes[j]))
+					if multiset(a) != wa || multiset(b) != wb {
+						return false, "insert-fork", fmt.Sprintf("table of %v: inserting %s and then %s into the same table gives [%s] and [%s]", c.Locs[:k], encFeature(probes[i]), encFeature(probes[j]), multiset(a), multiset(b))
+					}
+					if fmt.Sprint(len(base), multiset(base)) != beforeSeq {
+						return false, "insert-mutates", fmt.Sprintf("table of %v changed by inserting into it", c.Locs[:k])
+					}
+				}
+			}
+		}
+		return true, "", ""
 	case "order":
 		locs, err := decodeAll(c.Locs)
 		if err != nil || len(locs) != 3 {
@@ -415,7 +472,7 @@ func nestedComplement(loc gts.Location) bool {
 func init() {
 	register(&Check{ID: "C19", Level: "model_checking", Quick: 150 * time.Second, Thor: 30 * time.Minute,
 		Run: func(r *engine.Run) bool {
-			r.Rule = "(a) every selector string of <=k tokens over {gene,CDS,/,=,a,b,x,y,.,*,^,$} x 36 features (3 keys x 12 qualifier sets incl. multi-valued and empty values); (b) And/Or/Not trees of depth <=2 over atomic key/qualifier/bounds/strand filters x features over a location domain; (c) Filter over every table of 0..3 features; (d) every insertion sequence of 1..3 locations (4 on a subset) incl. source keys; (e) all triples for the order axioms; distinct key = the case (selector/boolean cases are generated exactly once by a mixed-radix index and counted without a hash set); non-trivial = selector with >=1 clause, resp. sequence with >=2 features"
+			r.Rule = "(a) every selector string of <=k tokens over {gene,CDS,/,=,a,b,x,y,.,*,^,$} x 36 features (3 keys x 12 qualifier sets incl. multi-valued and empty values); (b) And/Or/Not trees of depth <=2 over atomic key/qualifier/bounds/strand filters x features over a location domain; (c) Filter over every table of 0..3 features; (d) every insertion sequence of 1..3 locations (4 on a subset) incl. source keys, and fork histories (two different features inserted into one table built by 0..9 insertions; both results and the table itself judged); (e) all triples for the order axioms; distinct key = the case (selector/boolean cases are generated exactly once by a mixed-radix index and counted without a hash set); non-trivial = selector with >=1 clause, resp. sequence with >=2 features"
 			complete := true
 			eval := func(c c19Case, nontrivial bool, size int) {
 				r.Evals.Add(1)
@@ -579,6 +636,34 @@ func init() {
 					eval(c19Case{Kind: "order", Locs: ls}, true, 950)
 				})
 				complete = complete && done
+				// fork histories: two different features inserted into the same table (built by 0..9 insertions, so that
+				// every capacity the table passes through is met): sequences of <=4 over six locations, <=9 over three
+				{
+					six := []gts.Location{gts.Range(0, 3), gts.Point(1), gts.Range(1, 2), gts.Complemented{Location: gts.Range(0, 2)}, gts.Joined{gts.Range(0, 1), gts.Range(2, 3)}, gts.Between(2)}
+					var seqs [][]string
+					var rec func(cur []gts.Location, dom []gts.Location, max int)
+					rec = func(cur []gts.Location, dom []gts.Location, max int) {
+						if len(cur) > 4 || len(dom) == 6 {
+							seqs = append(seqs, encodeAll(cur))
+						}
+						if len(cur) == max {
+							return
+						}
+						for _, l := range dom {
+							rec(append(append([]gts.Location{}, cur...), l), dom, max)
+						}
+					}
+					rec(nil, six, 4)
+					rec(nil, six[:3], 9)
+					r.Extra["fork_tables"] = len(seqs)
+					done := r.ParallelFor(len(seqs), func(i int) {
+						eval(c19Case{Kind: "insert-fork", Locs: seqs[i]}, true, 980)
+						if len(seqs[i]) >= 2 {
+							eval(c19Case{Kind: "insert-fork", Locs: seqs[i], Keys: []string{"source", "", "source"}}, true, 981)
+						}
+					})
+					complete = complete && done
+				}
 				// 4-sequences over a smaller subset
 				var d4 []gts.Location
 				for i := 0; i < n; i += 4 {
